@@ -109,7 +109,7 @@ Definition max_request_path_length : Z := 1000.
 
 (* status: 0 ok, 400 bad request, 404 not found, -9 pattern outside the modelled alphabet *)
 Definition select (api : Z) (pat : list Z) (tree : list (list (list Z))) : Z * list Z :=
-  if ((api =? 0) || (api =? 1)) && (max_request_path_length <? Z.of_nat (length pat)) then (400, [])
+  if ((api =? 0) || (api =? 1) || (api =? 5)) && (max_request_path_length <? Z.of_nat (length pat)) then (400, [])
   else if negb (matcher_accepts pat) then (400, [])
   else match to_glob pat with
        | None => (-9, [])
@@ -123,7 +123,9 @@ Definition select (api : Z) (pat : list Z) (tree : list (list (list Z))) : Z * l
 
 (* ---------- driver ----------
    case: line0 = n path*  ; other lines = api pattern
-   api: 0 v1 Get, 1 v1 Subscribe, 2 v2 ListMetadata, 3 raw Matcher, 4 validity only
+   api: 0 v1 Get, 1 v1 Subscribe, 2 v2 ListMetadata, 3 raw Matcher, 4 validity only,
+        5 v1 Get with two entries (a path that matches, then the pattern): the entries of one request are
+          served independently, so the pattern's selection is that of api 0
         (4: out = [0|400; is_valid_path]) *)
 Fixpoint dec_paths (n : nat) (ts : list Z) : option (list (list Z)) :=
   match n with
